@@ -6,6 +6,7 @@ import (
 	"fmt"
 	"strings"
 	"testing"
+	"time"
 
 	"google.golang.org/grpc/internal/verif/vk"
 )
@@ -65,8 +66,17 @@ func RunScenarios(t *testing.T, r *vk.Run, props []string, scs []Scenario) {
 		r.EngineError("replay: scenario %q not found", rp.Scenario)
 		return
 	}
-	for _, sc := range scs {
-		cfg := Config{Name: sc.Name, Bound: sc.Bound, Horizon: sc.Horizon, MaxExecs: sc.MaxExecs, Shard: shard, NShards: nshards, Body: sc.Body, OverBudget: r.OverBudget}
+	legStart := time.Now()
+	budget := r.Budget()
+	for i, sc := range scs {
+		// each scenario gets an equal share of what is left of the leg's soft budget
+		var over func() bool
+		if budget > 0 {
+			left := budget - time.Since(legStart)
+			deadline := time.Now().Add(left / time.Duration(len(scs)-i))
+			over = func() bool { return time.Now().After(deadline) }
+		}
+		cfg := Config{Name: sc.Name, Bound: sc.Bound, Horizon: sc.Horizon, MaxExecs: sc.MaxExecs, Shard: shard, NShards: nshards, Body: sc.Body, OverBudget: over}
 		st := Explore(t, cfg)
 		for _, e := range st.EngineErrors {
 			r.EngineError("%s", e)
